@@ -544,6 +544,25 @@ def exhaustive_histories(codes, bases):
             for s2 in stores:
                 for l in loads[::1]:
                     out.append([s1, s2, l])
+        # tilings of one dword by three or four narrower stores (a string written byte by byte, a word and two bytes, ...), constants and
+        # registers, written upwards and downwards, optionally on top of an earlier constant dword; then one load of every width at offsets 0..3
+        for parts in ([1, 1, 1, 1], [2, 1, 1], [1, 2, 1], [1, 1, 2], [2, 2]):
+            offs, o = [], 0
+            for p in parts:
+                offs.append((o, p * 8))
+                o += p
+            for kinds in ("iiii", "rrrr", "irir", "riri"):
+                for order in (1, -1):
+                    for under in (False, True):
+                        h = ["storei:%s:32:0" % b] if under else []
+                        for j, (off, w) in list(enumerate(offs))[::order]:
+                            h.append(("storei:%s:%d:%d" % (b, w, off)) if kinds[j] == "i" else ("store:%s:%d:%d:%s" % (b, w, off, DREGS[w][j % 3])))
+                        if not all(x in codes for x in h):
+                            continue
+                        for l in loads:
+                            lw, lo = int(l.split(":")[2]), int(l.split(":")[3])
+                            if lo <= 3 and lw // 8 >= 2:
+                                out.append(h + [l])
     return out
 
 
